@@ -11,12 +11,13 @@ PROTOCOL_RE = re.compile(r"^%s" % PROTOCOL)
 WEB_PROTOCOL_RE = re.compile(r"^%s" % WEB_PROTOCOL, re.I)
 HTTP_PROTOCOL_RE = re.compile(r"^%s" % HTTP_PROTOCOL, re.I)
 
-# NOTE: non-ascii characters allowed in a hostname: from U+00A1 to the end of the
-# BMP, except the whitespace characters lying in that range (U+1680,
-# U+2000-U+200A, U+2028, U+2029, U+202F, U+205F & U+3000).
+# NOTE: non-ascii characters allowed in a hostname: from U+00A1 upwards (the
+# supplementary planes included: emoji domains exist), except the whitespace
+# characters lying in that range (U+1680, U+2000-U+200A, U+2028, U+2029,
+# U+202F, U+205F & U+3000).
 UNICODE_HOST_CHARS = (
     r"\u00a1-\u167f\u1681-\u1fff\u200b-\u2027\u202a-\u202e"
-    r"\u2030-\u205e\u2060-\u2fff\u3001-\uffff"
+    r"\u2030-\u205e\u2060-\u2fff\u3001-\uffff\U00010000-\U0010ffff"
 )
 
 # Adapted from:
